@@ -353,7 +353,15 @@ class Base(_BaseClass):
                     resulttokens.append(token)
                     break
 
-                if '{' == val:
+                # an escaped \\7b is the identifier "{" after the tokenizer,
+                # no structure
+                char = Base._prods.IDENT != typ
+                if Base._prods.FUNCTION == typ:
+                    # function(
+                    parant += 1
+                elif not char:
+                    pass
+                elif '{' == val:
                     brace += 1
                 elif '}' == val:
                     brace -= 1
@@ -361,8 +369,7 @@ class Base(_BaseClass):
                     bracket += 1
                 elif ']' == val:
                     bracket -= 1
-                # function( or single (
-                elif '(' == val or Base._prods.FUNCTION == typ:
+                elif '(' == val:
                     parant += 1
                 elif ')' == val:
                     parant -= 1
@@ -370,7 +377,7 @@ class Base(_BaseClass):
                 resulttokens.append(token)
 
                 if (brace == bracket == parant == 0) and (
-                    val in ends or typ in endtypes
+                    (char and val in ends) or typ in endtypes
                 ):
                     break
                 elif (
